@@ -161,15 +161,17 @@ func (s *Signer) UpdateSignatures(signatures *bundle.Signatures) (*bundle.Signat
 }
 
 func (s *Signer) sign(signed []byte) ([]byte, error) {
-	if s.Algorithm == nil {
+	// Do not cache the algorithm in s: a Signer may be shared between goroutines.
+	algorithm := s.Algorithm
+	if algorithm == nil {
 		var err error
-		s.Algorithm, err = signingalgorithm.SigningAlgorithmForPrivateKey(s.PrivKey, rand.Reader)
+		algorithm, err = signingalgorithm.SigningAlgorithmForPrivateKey(s.PrivKey, rand.Reader)
 		if err != nil {
 			return nil, err
 		}
 	}
 
-	return s.Algorithm.Sign(generateSignedMessage(signed, s.Version))
+	return algorithm.Sign(generateSignedMessage(signed, s.Version))
 }
 
 // https://github.com/WICG/webpackage/issues/472#issuecomment-520080192
